@@ -207,7 +207,7 @@ def run_point(prog, entry: tuple, pt: dict, n_stmts: int = 2) -> dict:
         emitted = _count_statement_rows(frames)
         # the stream used (guessed entry points create it inside pyjelly): find it through the events
         left = None
-        streams = [e["obj"] for e in it.events if e["kind"] == "setattr" and e["attr"] == "flow" and isinstance(e.get("obj"), Obj)]
+        streams = [e["obj"] for e in it.events if e["kind"] == "setattr" and e["attr"] == "flow" and isinstance(e.get("obj"), Obj) and isinstance(e.get("value"), Obj)]
         if stream is None and streams:
             stream = streams[-1]
         flow_cls = None
